@@ -266,12 +266,12 @@ func (f *farm) process(files []FileDef, mode string, plan map[string]*enumPlan) 
 		}
 		must(os.WriteFile(filepath.Join(f.dir, fd.Pkg, "zz_dump.go"), []byte(dumpSource(fd)), 0o644))
 		mainImports = append(mainImports, fmt.Sprintf("\t%q", "farm/"+fd.Pkg))
-		mainCalls = append(mainCalls, fmt.Sprintf("\tcall(%s.DumpAll, s)", fd.Pkg))
+		mainCalls = append(mainCalls, fmt.Sprintf("\tcall(%q, %s.DumpAll, s)", fd.Pkg, fd.Pkg))
 	}
 	if len(mainCalls) > 0 {
 		src := "package main\n\nimport (\n\t\"os\"\n\n\t\"farm/dumplib\"\n" + strings.Join(mainImports, "\n") + "\n)\n\n" +
-			"func call(f func(*dumplib.Sink), s *dumplib.Sink) {\n\tdefer func() {\n\t\tif r := recover(); r != nil {\n\t\t\tos.Stderr.WriteString(\"dump panic\\n\")\n\t\t}\n\t}()\n\tf(s)\n}\n\n" +
-			"func main() {\n\ts := dumplib.NewSink(os.Args[1], os.Args[2])\n" + strings.Join(mainCalls, "\n") + "\n\ts.Close()\n}\n"
+			"var only = map[string]bool{}\n\nfunc call(name string, f func(*dumplib.Sink), s *dumplib.Sink) {\n\tif len(only) > 0 && !only[name] {\n\t\treturn\n\t}\n\tdefer func() {\n\t\tif r := recover(); r != nil {\n\t\t\tos.Stderr.WriteString(\"dump panic\\n\")\n\t\t}\n\t}()\n\tf(s)\n}\n\n" +
+			"func main() {\n\tfor _, a := range os.Args[3:] {\n\t\tonly[a] = true\n\t}\n\ts := dumplib.NewSink(os.Args[1], os.Args[2])\n" + strings.Join(mainCalls, "\n") + "\n\ts.Close()\n}\n"
 		must(os.WriteFile(filepath.Join(f.dir, "cmd", "dump", "main.go"), []byte(src), 0o644))
 		pb, err := json.Marshal(plan)
 		must(err)
@@ -286,13 +286,38 @@ func (f *farm) process(files []FileDef, mode string, plan map[string]*enumPlan) 
 		lap("go build of the observer")
 		outPath := filepath.Join(f.work, "dump.jsonl")
 		out, err = f.run(f.work, 15*time.Minute, bin, planPath, outPath)
+		var data []byte
 		if err != nil {
-			fmt.Fprintln(os.Stderr, "genumfarm: observer run failed:\n"+tail(out, 4000))
-			os.Exit(3)
+			// the observer died (a fatal error of generated code — e.g. unbounded recursion — cannot be recovered
+			// in-process): observe every package in a process of its own; a package whose observer dies has
+			// no observations (outcome observer_failed), the others are judged as usual
+			fmt.Fprintln(os.Stderr, "genumfarm: observer run failed, observing package by package:\n"+head(out, 600))
+			var mu sync.Mutex
+			var pkgs []int
+			for i := range files {
+				if res[i].GenOK && res[i].BuildOK {
+					pkgs = append(pkgs, i)
+				}
+			}
+			parallel(len(pkgs), 8, func(k int) {
+				i := pkgs[k]
+				op := filepath.Join(f.work, "dump-"+files[i].Pkg+".jsonl")
+				o, e := f.run(f.work, 5*time.Minute, bin, planPath, op, files[i].Pkg)
+				mu.Lock()
+				defer mu.Unlock()
+				if e != nil {
+					res[i].BuildLog = "observer process died: " + head(o, 400)
+					return
+				}
+				if b, rerr := os.ReadFile(op); rerr == nil {
+					data = append(data, b...)
+				}
+			})
+		} else {
+			data, err = os.ReadFile(outPath)
+			must(err)
 		}
 		lap("observer run")
-		data, err := os.ReadFile(outPath)
-		must(err)
 		for _, line := range strings.Split(string(data), "\n") {
 			if strings.TrimSpace(line) == "" {
 				continue
@@ -309,6 +334,13 @@ func (f *farm) process(files []FileDef, mode string, plan map[string]*enumPlan) 
 		}
 	}
 	return res
+}
+
+func head(s string, n int) string {
+	if len(s) > n {
+		return s[:n]
+	}
+	return s
 }
 
 func tail(s string, n int) string {
